@@ -5,6 +5,7 @@ CONSTANTS
  MaxTicket = 8
  MaxStale = 0
  MaxExh = 0
+ MaxReins = 0
  AllowRemove = FALSE
  Dev = {}
 INVARIANTS Reach_Bypass
